@@ -77,7 +77,6 @@ theorem isClosestPair_rigid {g : Pose ℝ} (hg : Orthonormal g.R) (K₁ K₂ : V
 /-- where the optimum of the original scene is unique, every closest pair of the moved scene is
 the moved closest pair -/
 theorem closestPair_rigid_of_unique {g : Pose ℝ} (hg : Orthonormal g.R) {K₁ K₂ : V → Prop} {x y : V}
-    (h : IsClosestPair K₁ K₂ x y)
     (huniq : ∀ a b, IsClosestPair K₁ K₂ a b → a = x ∧ b = y)
     {x' y' : V} (h' : IsClosestPair (poseImage g K₁) (poseImage g K₂) x' y') :
     x' = g.apply x ∧ y' = g.apply y := by
